@@ -286,7 +286,8 @@ def _worker(chunk):
         _W["m"] = Model("c07")
     out = []
     for job in chunk:
-        job = dict(job, t=R.tj(job["t"]))
+        if "t" in job:
+            job = dict(job, t=R.tj(job["t"]))
         try:
             out.append(R.execute_job(pt, _W["m"], job))
         except Exception as e:  # noqa  (harness-side problem: reported, never silently dropped)
@@ -548,9 +549,9 @@ def behaviour_jobs(ck, thorough, extra_shapes=()):
         # quick: every shape up to width 3, a seeded sample of width 4
         w4 = [t for t in shapes if len(t) == 5]
         rng.shuffle(w4)
-        shapes = [t for t in shapes if len(t) < 5] + w4[:300]
+        shapes = [t for t in shapes if len(t) < 5] + w4[:150]
     ck.coverage["behaviour_tuple_shapes"] = {"alphabet": [AB.arc4_str(x) for x in alpha], "exhaustive_width": 4 if thorough else 3,
-                                             "sampled_width4": 0 if thorough else 300, "shapes": len(shapes)}
+                                             "sampled_width4": 0 if thorough else 150, "shapes": len(shapes)}
     for t in shapes:
         if len(t) == 1:
             continue
@@ -569,7 +570,7 @@ def behaviour_jobs(ck, thorough, extra_shapes=()):
             jobs += tuple_jobs(t, rng, k, thorough, nvals=2, kinds=("tuple", "named"))
             k += 1
     # random deeper tuples
-    for _ in range(600 if thorough else 100):
+    for _ in range(600 if thorough else 60):
         w = rng.choice([2, 3, 5, 6, 9])
         t = C7.realise(("tuple",) + tuple(AB.rand_type(rng, rng.choice([0, 1, 1, 2]), special=0.0, named=0.15) for _ in range(w)))
         try:
@@ -652,6 +653,88 @@ def variant_jobs(ck, thorough):
     return out
 
 
+def special_jobs(ck, thorough):
+    """(a) 2-3 NamedTuple classes per program that share field names at DIFFERENT positions and with different types,
+           instantiated in varying orders (with throw-away instances), every field of every class read by name;
+       (b) one ComputedValue handle (e = t[i] / e = arr[idx]) used twice: container re-decoded from another argument in
+           between, on both arms of an If, before and inside a loop; use/use, store_into/use, use/store_into."""
+    rng = ck.rng
+    jobs = []
+    pool_names = ["price", "quantity", "owner", "flag", "memo"]
+    pool_types = [("uint", 64), ("uint", 16), "bool", "string", "address", "byte", ("uint", 64)]
+    cfgs = [(5, "scratch"), (8, "frame"), (7, "subscratch"), (10, "frame"), (9, "scratch"), (6, "scratch"), (8, "scratch"), (10, "scratch"), (9, "frame")]
+    nprog = 120 if thorough else 40
+    for k in range(nprog):
+        ncls = 2 if k % 3 else 3
+        w = rng.choice([2, 2, 3, 4])
+        names = rng.sample(pool_names, w)
+        classes = []
+        for c in range(ncls):
+            nm = list(names)
+            if c == 0:
+                pass
+            elif w == 2 or c == 1:
+                nm = nm[::-1]
+            else:
+                nm = nm[1:] + nm[:1]
+            if k % 4 == 0 and c == 1:
+                ts = [("uint", 64)] * w           # same type everywhere: a wrong position cannot fail, only return the wrong field
+            else:
+                ts = [rng.choice(pool_types) for _ in nm]
+            if k % 4 == 0 and c == 0:
+                ts = [("uint", 64)] * w
+            classes.append({"names": nm, "ts": ts})
+        order = list(range(ncls))
+        rng.shuffle(order)
+        if k % 2:
+            order = order + [rng.randrange(ncls)]
+        access = [(c, n, ["use", "store"][(k + c + j) % 2]) for c in range(ncls) for j, n in enumerate(classes[c]["names"])]
+        rng.shuffle(access)
+        runs = []
+        for rep in range(2):
+            vals = [[AB.gen_value(C7.layout(t), rng, text=True, maxlen=3) for t in cd["ts"]] for cd in classes]
+            args = [sdk_enc(("tuple",) + tuple(cd["ts"]), v) for cd, v in zip(classes, vals)]
+            expects = [sdk_enc(classes[c]["ts"][classes[c]["names"].index(n)], vals[c][classes[c]["names"].index(n)]).hex() for (c, n, _) in access]
+            runs.append({"args": [a.hex() for a in args], "tag": "in", "expects": expects})
+        ver, be = cfgs[k % len(cfgs)]
+        jobs.append({"kind": "multinamed", "classes": classes, "order": order, "access": [list(a) for a in access], "ver": ver, "backend": be, "runs": runs})
+    # handles
+    hk = 0
+    for (base, t, i) in [("tuple", ("tuple", ("uint", 64), ("uint", 64)), 1), ("tuple", ("tuple", "bool", "string", ("uint", 16)), 1),
+                         ("tuple", ("tuple", "string", "bool", "bool"), 2), ("array", ("darr", ("uint", 32)), None), ("array", ("sarr", ("uint", 16), 3), None),
+                         ("array", ("darr", "string"), None), ("array", ("darr", "bool"), None)]:
+        for hv in ("redecode", "branches", "loop"):
+            for pattern in (["use", "use"], ["store", "use"], ["use", "store"]):
+                for be in (("scratch", "frame", "subscratch") if thorough else (("scratch", "frame") if hv == "branches" else (("scratch", "frame", "subscratch")[hk % 3],))):
+                    ver = (8 + hk % 3) if be == "frame" else (5 + hk % 6)
+                    hk += 1
+                    runs = []
+                    for rep in range(2):
+                        if base == "tuple":
+                            va, vb = gen_val(t, rng), gen_val(t, rng)
+                            et = AB.children(t)[i]
+                            ca, cb = sdk_enc(et, va[i]).hex(), sdk_enc(et, vb[i]).hex()
+                            idxs = [(0, True)]
+                        else:
+                            e_, sl = C7.array_info(t)
+                            n = sl if sl is not None else rng.choice([1, 2, 3])
+                            va, vb = gen_array_val(t, n, rng), gen_array_val(t, n, rng)
+                            idxs = [(x, True) for x in range(n)]
+                            if C7.elem_kind(e_) == "static":
+                                idxs += [(n, False), (n + 1, False), (65536, False)]
+                        ea, eb = sdk_enc(t, va), sdk_enc(t, vb)
+                        for (ix, inr) in idxs:
+                            if base == "array" and inr:
+                                e_ = C7.array_info(t)[0]
+                                ca, cb = sdk_enc(e_, elems(va)[ix]).hex(), sdk_enc(e_, elems(vb)[ix]).hex()
+                            for sel in ((b"x", b"y") if hv == "branches" else (b"x",)):
+                                exp = {"redecode": [ca, cb], "branches": [ca], "loop": [ca, cb, cb]}[hv] if inr else None
+                                runs.append({"args": [ea.hex(), ix.to_bytes(8, "big").hex(), eb.hex(), sel.hex()], "tag": "in" if inr else "oob", "expects": exp, "idx": ix})
+                    jobs.append({"kind": "handle", "base": base, "t": t, "i": i, "handle": hv, "pattern": pattern, "ver": ver, "backend": be, "runs": runs})
+    ck.coverage["special_jobs"] = {"multinamed_programs": nprog, "handle_programs": len(jobs) - nprog}
+    return jobs
+
+
 # ---------------------------------------------------------------------------------------------
 # shrinking a failing run
 # ---------------------------------------------------------------------------------------------
@@ -725,11 +808,11 @@ def replay(path):
         return 2
     import pyteal as pt
     model = Model("c07")
-    job = dict(ent["job"], t=R.tj(ent["job"]["t"]))
+    job = dict(ent["job"], t=R.tj(ent["job"]["t"])) if "t" in ent["job"] else ent["job"]
     r = R.execute_job(pt, model, job)
     bad = [x for x in r["issues"] if x["kind"] in ("semantic", "oob", "crash", "compile")]
     print("job %s %s i=%s index=%s v%d %s: compile=%s runs=%d in_ok=%d oob_fail=%d oob_known=%s issues=%d" % (
-        job["kind"], AB.arc4_str(job["t"]), job.get("i"), job.get("index"), job["ver"], job["backend"], r["compile"], r["runs"], r["in_ok"],
+        job["kind"], AB.arc4_str(job["t"]) if "t" in job else "-", job.get("i"), job.get("index"), job["ver"], job["backend"], r["compile"], r["runs"], r["in_ok"],
         r["oob_fail"], r["oob_known"], len(r["issues"])))
     for x in r["issues"][:5]:
         print("  %s: %s" % (x["kind"], x["why"]))
@@ -766,6 +849,7 @@ def main(argv):
     # ---------------- 3. behaviour on the AVM (oracle + executed correspondence) ----------------
     jobs = behaviour_jobs(ck, thorough, extra_shapes=bad_shapes if (mism or not ck.proof_ok) else ())
     jobs += variant_jobs(ck, thorough)
+    jobs += special_jobs(ck, thorough)
     t_gen = time.time()
     results = run_jobs(jobs)
     t_run = time.time()
@@ -801,7 +885,7 @@ def main(argv):
     ck.coverage["behaviour"] = agg
     ck.coverage["input_distribution"] = hist
     for r in results:
-        if r["runs"] and len(ck.samples) < 4 and r["in_ok"]:
+        if r["runs"] and len(ck.samples) < 4 and r["in_ok"] and jobs[r["id"]]["kind"] not in R.SPECIAL_KINDS:
             j = jobs[r["id"]]
             ck.sample({"kind": "in-range", "type": AB.arc4_str(j["t"]), "access": j["kind"], "position": j.get("i"), "version": j["ver"], "backend": j["backend"],
                        "enc": j["runs"][0]["enc"], "expected_log": j["runs"][0].get("expect")})
@@ -831,17 +915,32 @@ def main(argv):
     ck.coverage["known_finding_runs"] = known_counts
 
     # ---------------- 5. verdict ----------------
+    def _size(f):
+        j = f.get("job") or {}
+        if j.get("kind") == "multinamed":
+            return sum(len(cd["names"]) for cd in j["classes"]) + len(j["order"])
+        return 0
+    sem.sort(key=_size)          # stable: among multi-class programs the smallest failing one is reported
     reported = 0
     seen_why = set()
     for f in sem:
         if reported >= 6:
             break
         fj = f.get("job") or {}
-        sig = (f["kind"], fj.get("kind"), repr(fj.get("t")), fj.get("i"), (fj.get("runs") or [{}])[0].get("tag"), bool(fj.get("user_slots")), fj.get("flow")) if fj else (f["kind"], f["why"][:60])
+        sig = (f["kind"], fj.get("kind"), repr(fj.get("t")), fj.get("i"), (fj.get("runs") or [{}])[0].get("tag"), bool(fj.get("user_slots")), fj.get("flow"), fj.get("handle")) if fj else (f["kind"], f["why"][:60])
         if sig in seen_why:
             continue
         seen_why.add(sig)
         small = f.get("job")
+        if small is not None and small["kind"] in R.SPECIAL_KINDS:
+            desc = ("NamedTuple classes %s instantiated in order %s, fields read by name %s" % (
+                        ["(" + ", ".join("%s: %s" % (n, AB.arc4_str(R.tj(t_))) for n, t_ in zip(cd["names"], cd["ts"])) + ")" for cd in small["classes"]],
+                        small["order"], [a[:2] for a in small["access"]])) if small["kind"] == "multinamed" else (
+                    "one element handle of %s (%s) used twice, shape %s, pattern %s" % (AB.arc4_str(R.tj(small["t"])), "position %s" % small["i"] if small["base"] == "tuple" else "run-time index", small["handle"], small["pattern"]))
+            ck.violation("ABI access program: %s, v%d, back-end %s: %s" % (desc, small["ver"], small["backend"], f["why"]),
+                         {"kind": f["kind"], "job": small, "why": f["why"], "real": f.get("real"), "expect": f.get("expect"), "teal": f.get("teal")})
+            reported += 1
+            continue
         if small is not None and f["kind"] in ("semantic", "oob"):
             j0 = dict(small, t=R.tj(small["t"]))
             small = job_json(shrink(pt, model, j0, dict(f, run=small["runs"][0]), ck.rng))
